@@ -286,7 +286,7 @@ type c12xOut struct {
 
 func c12RunX(r *explore.Run, sub string, tot *c12Totals) bool {
 	bin := filepath.Join(r.Root, "bin", "c12x")
-	cmd := exec.Command(bin, sub, "--tier", r.Tier, "--replays", filepath.Join(r.Root, "replays", "C12"))
+	cmd := exec.Command(bin, sub, "--tier", r.Tier, "--repo", repoDir(), "--root", r.Root, "--replays", filepath.Join(r.Root, "replays", "C12"))
 	cmd.Dir = r.Root
 	var stdout, stderr bytes.Buffer
 	cmd.Stdout, cmd.Stderr = &stdout, &stderr
